@@ -37,6 +37,17 @@ void inst(gray8_view_t const& a, gray8_view_t const& b, rgb8_view_t const& c, rg
   (void)extend_boundary(c, 1, boundary_option::extend_constant);
 }
 void inst2(rgb8_view_t const& c, bgr32f_view_t const& x){ detail::kernel_2d<float> k2(3, 1, 1); detail::convolve_2d(c, k2, x); }
+// exact integer accumulation wider than the source channel (V10): 32-bit channels, integer kernels, 64-bit accumulators; and every channel functor by itself
+void inst3(gray32_view_t const& a, gray32s_view_t const& s, gray32_view_t const& b, gray32s_view_t const& t){
+  using acc_t = pixel<std::int64_t, gray_layout_t>;
+  kernel_1d<int> k(3, 1); kernel_1d<short> ks(3, 1);
+  correlate_rows<acc_t>(a, k, b); correlate_rows<acc_t>(s, k, t); correlate_cols<acc_t>(s, ks, t);
+  std::uint32_t u = 5; std::int32_t i = -3; int w = -2;
+  (void)channel_plus_t<std::uint32_t, std::int32_t, std::int64_t>()(u, i); (void)channel_minus_t<std::uint32_t, std::int32_t, std::int64_t>()(u, i);
+  (void)channel_multiplies_t<std::uint32_t, std::int32_t, std::int64_t>()(u, i); (void)channel_divides_t<std::uint32_t, std::int32_t, std::int64_t>()(u, i);
+  (void)channel_plus_scalar_t<std::uint32_t, int, std::int64_t>()(u, w); (void)channel_minus_scalar_t<std::uint32_t, int, std::int64_t>()(u, w);
+  (void)channel_multiplies_scalar_t<std::uint32_t, int, std::int64_t>()(u, w); (void)channel_divides_scalar_t<std::uint32_t, int, std::int64_t>()(u, w);
+}
 '''
 
 
@@ -50,7 +61,7 @@ def run(rep):
                    "^boost::gil::(view_multiplies_scalar|correlate_pixels_n|correlate_pixels_k)$",
                    "^boost::gil::reverse_kernel$", "^boost::gil::detail::kernel_1d_adaptor::(left_size|right_size)$",
                    "^boost::gil::detail::kernel_(1d|2d)_adaptor::(center_x|center_y|center|upper_size|lower_size|kernel_2d_adaptor|operator=)$",
-                   "^boost::gil::(extend_row|extend_col|extend_boundary)$", "^boost::gil::detail::extend_row_impl$", "^boost::gil::detail::physical_channel_index$", "^boost::gil::detail::__nth_channel_view_basic::make$"])
+                   "^boost::gil::(extend_row|extend_col|extend_boundary)$", "^boost::gil::detail::extend_row_impl$", "^boost::gil::channel_(plus|minus|multiplies|divides)(_scalar)?_t::operator\\(\\)$", "^boost::gil::detail::physical_channel_index$", "^boost::gil::detail::__nth_channel_view_basic::make$"])
     fns = d["functions"]
     spec = json.load(open(os.path.join(C.SPEC, "c15_convolve.json")))
     rep.units.append("c15_driver.cpp: %d instantiated functions" % len(fns))
@@ -111,6 +122,7 @@ def run(rep):
     rep.floor("obligations:V2", 3)
     kernel_2d_rule(rep, fns)
     extend_rule(rep, fns)
+    result_type_arithmetic(rep, fns)
     rep.rule("V8 convolve_2d (instantiated rgb8 -> bgr32f): the per-channel calls pair the source and destination channels of the same colour "
              "(nth_channel_view counts in memory order: one layout on both sides, or detail::physical_channel_index<own view>(k) on each side)")
     R.channel_pairing(rep, fns, "V8-channel-pairing", ("boost::gil::detail::convolve_2d",), "obligations:V8")
@@ -638,3 +650,47 @@ def accumulator_rule(rep, fns):
         else:
             rep.ok("V5-accumulator", key, "%d functor uses, all in the accumulator type" % n)
     rep.floor("obligations:V5", 3)
+
+
+def result_type_arithmetic(rep, fns):
+    """V10: the channel functors take the type the arithmetic is to be carried out in as a template parameter (ChannelResult: the accumulator's channel). An operation that
+    is first performed in the promoted type of its operands and converted afterwards has already wrapped when the accumulator is wider than that type."""
+    from .ast.rules import type_range, _TYRANGE, _cty
+    rep.rule("V10 channel_{plus,minus,multiplies,divides}[_scalar]_t::operator(): no + - * is performed in an integral type narrower than ChannelResult and converted to "
+             "ChannelResult afterwards when the interval of the operation -- from the canonical types of its operands -- leaves that narrower type (both operands are converted first); "
+             "decided on instantiations with 32-bit channels and a 64-bit result. Witness: the extreme operands")
+    RANK = {"char": 8, "signed char": 8, "unsigned char": 8, "short": 16, "unsigned short": 16, "int": 32, "unsigned int": 32, "long": 64, "unsigned long": 64, "long long": 64, "unsigned long long": 64}
+    seen = set()
+    for f in fns:
+        m = re.match(r"boost::gil::(channel_[a-z_]+_t)::operator\(\)$", f["name"])
+        if not m or f.get("body") is None:
+            continue
+        res = _cty(f.get("ret") or "")
+        full = f.get("full", "")
+        key = "V10:%s" % m.group(1)
+        wide = [x for x, _ in R.find(f["body"], lambda x: x.get("k") in ("ImplicitCast", "ExplicitCast") and x.get("from_c") is not None)]
+        inst = re.sub(r"boost::gil::|std::", "", full.split("::operator")[0])[:100]
+        bad = []
+        nops = 0
+        for x in wide:
+            frm, to = _cty(x["from_c"]), _cty(x["to_c"])
+            e = x["e"]
+            while isinstance(e, dict) and e.get("k") == "Paren":
+                e = e["e"]
+            if not (isinstance(e, dict) and e.get("k") == "Binary" and e.get("op") in ("+", "-", "*")):
+                continue
+            nops += 1
+            if frm in RANK and ((to in RANK and RANK[to] > RANK[frm]) or to in ("float", "double", "long double")):
+                r = type_range(e)
+                lim = _TYRANGE[frm]
+                if r is None or r[0] < lim[0] or r[1] > lim[1]:
+                    bad.append({"operation": R.key(e)[:80], "performed in": frm, "converted to": to, "interval": r, "instantiation": inst})
+        if (key, bool(bad)) in seen or (not bad and key in {k for k, _ in seen}):
+            continue
+        seen.add((key, bool(bad)))
+        rep.count("obligations:V10")
+        if bad:
+            rep.violation("V10-result-type", key, R.fn_where(f), {"late conversions": bad[:3], "example": "gray32 source, kernel {-1,0,1}, int64 accumulator: 7u * -1 is 4294967289 in unsigned int, the accumulator gets that instead of -7"})
+        else:
+            rep.ok("V10-result-type", key, "operands are converted to the result type before the operation (%s)" % inst)
+    rep.floor("obligations:V10", 8)
